@@ -69,13 +69,15 @@ Inductive c11case :=
      (-checks "*" -show-ignored) -> exit, output *)
 | CCli (f : format) (all : list string) (checks fail : option string) (si : bool)
        (pkgs : list (list (option (list string)) * list problem)) (obs_exit : Z) (obs_out : list rendered)
+  (* config.Load on a directory chain in which a file may be undecodable -> did Load return an error? *)
+| CLoadBad (chain : list conf_file) (obs_err : bool)
   (* one run of the binary with patterns naming only some packages: per package of the import cone its kind
      (named / failed dependency / dependency that loaded), configuration chain and the problems the `./...` run
      with every check enabled reports for it -> exit, output *)
 | CCone (f : format) (all : list string) (checks fail : option string) (si : bool)
         (pkgs : list (pkind * list (option (list string)) * list problem)) (obs_exit : Z) (obs_out : list rendered).
 
-Inductive diffkind := DMap | DParse | DList | DAllowed | DExit | DOutput.
+Inductive diffkind := DMap | DParse | DList | DAllowed | DExit | DOutput | DLoadErr.
 
 Definition keys_of (all sel : list string) (obs : list (string * bool)) : list string :=
   all ++ map pattern_of sel ++ map fst obs.
@@ -128,6 +130,7 @@ Definition case_violation (c : c11case) : list diffkind :=
       let sel := cli_selected spec_effective all checks pkgs in
       (if Z.eqb (spec_exit f all (cli_fail fail) si false sel) oe then [] else [DExit]) ++
       (if mset_eqb rendered_eqb (spec_output f si false sel) oo then [] else [DOutput])
+  | CLoadBad chain oe => if Bool.eqb (load_fails chain) oe then [] else [DLoadErr]
   | CCone f all checks fail si pkgs oe oo =>
       let sel := cone_selected spec_effective all checks pkgs in
       (if Z.eqb (spec_exit f all (cli_fail fail) si false sel) oe then [] else [DExit]) ++
@@ -154,6 +157,7 @@ Definition case_mismatch (c : c11case) : list diffkind :=
       let sel := cli_selected effective_checks all checks pkgs in
       (if Z.eqb (exit_status f all (cli_fail fail) si false sel) oe then [] else [DExit]) ++
       (if mset_eqb rendered_eqb (format_output f (to_print all (cli_fail fail) si false sel)) oo then [] else [DOutput])
+  | CLoadBad chain oe => if Bool.eqb (load_fails chain) oe then [] else [DLoadErr]
   | CCone f all checks fail si pkgs oe oo =>
       let sel := cone_selected effective_checks all checks pkgs in
       (if Z.eqb (exit_status f all (cli_fail fail) si false sel) oe then [] else [DExit]) ++
